@@ -214,7 +214,9 @@ void pres_build(pres_t *p, const stripe_t *s, const int *idxs, int n, int almode
         else if (almode == AL_MIXED) mis = (rng_below(r, 2)) ? 1 + (int)rng_below(r, 15) : 0;
         size_t flen = s->flen;
         if (guarded) {
-            uint8_t *b = g_alloc_off(flen, mis);
+            /* 1: start at 16n+mis, <=15 bytes of slack before the guard; 2: ends exactly at the guard
+             * page (over-reads fault); 3: starts exactly after a guard page (under-reads fault) */
+            uint8_t *b = guarded == 2 ? g_alloc(flen, G_END) : guarded == 3 ? g_alloc(flen, G_START) : g_alloc_off(flen, mis);
             memcpy(b, s->frag[idxs[i]], flen);
             g_ro(b);
             p->ptr[i] = (char *)b; p->base[i] = b; p->kind[i] = 1;
